@@ -580,6 +580,22 @@ func run(tier, unit string, r *vlib.Rec) {
 				r.Count("lists")
 			}
 		}
+	case "long": // strings beyond every machine-word size (63..130 bytes), all ordered pairs
+		var ls []string
+		for _, n := range []int{31, 32, 33, 63, 64, 65, 66, 100, 127, 128, 129, 130} {
+			ls = append(ls, strings.Repeat("x", n), strings.Repeat("ab", n/2)+strings.Repeat("c", n%2), strings.Repeat("y", n/2)+strings.Repeat("x", n-n/2), "john "+strings.Repeat("de la ", n/6)+"smith")
+		}
+		for _, a := range ls {
+			for _, b := range ls {
+				for _, fn := range []string{"JaroWinkler", "StringSimilarity"} {
+					r.Eval()
+					r.Count("long")
+					if s, w := judgeString(fn, a, b, 0.7, 4); s != "" {
+						r.Fail(s, w, kase{Space: map[string]string{"JaroWinkler": "jw", "StringSimilarity": "ss"}[fn] + ":long:0", A: a, B: b, Args: []string{"0.7", "4"}})
+					}
+				}
+			}
+		}
 	case "fams":
 		var all [][2]string
 		for _, n := range famNames {
@@ -614,6 +630,7 @@ func plan(tier string) []string {
 		n := int64(len(stringsOver(s.alpha, s.n)))
 		out = append(out, vlib.Chunks(fmt.Sprintf("%s:%s:%d", s.kind, s.alpha, s.n), n, 16)...)
 	}
+	out = append(out, "long:0:0:1")
 	out = append(out, vlib.Chunks("dates", int64(len(dateValues())), 8)...)
 	out = append(out, vlib.Chunks("indis", int64(len(indiUniverse())), 2)...)
 	out = append(out, "nil:0:1")
@@ -692,7 +709,7 @@ func main() {
 		Run:    run,
 		Replay: replay,
 		Required: func(string) []string {
-			return []string{"strings:JaroWinkler", "strings:StringSimilarity", "dates", "indis", "nil", "lists", "fams"}
+			return []string{"strings:JaroWinkler", "strings:StringSimilarity", "dates", "indis", "nil", "lists", "fams", "long"}
 		},
 		Deadline: func(tier string) time.Duration {
 			if tier == "thorough" {
